@@ -437,4 +437,21 @@ def run(ctx):
                   "cand.iter_mut().try_for_each(apply_gidnumber) propagated",
                   f"GidNumber::{hook} can succeed without `try_for_each(apply_gidnumber)` having succeeded for every candidate — "
                   f"an Err from the range check would be dropped", file=rec["file"], line=rec["line"])
+        # ... and over EVERY candidate: the iterator handed to try_for_each is the whole candidate list (added after seeded change C21:
+        # a `.filter(..)` that skipped batch candidates whose modlist used Modify::Set, i.e. every SCIM PUT)
+        from .lib.x_chain import chain, lossy
+        cand_local = None
+        for p in rec["params"]:
+            if "Vec<" in p["ty"] and "EntryInvalid" in p["ty"] and p["pat"].get("p") == "bind":
+                cand_local = p["pat"]["local"]
+        tfe = [n for n in walk(rec["body"]) if n.get("e") == "mcall" and n.get("name") == "try_for_each"
+               and has_token(tokens({"a": n.get("args", [])}), "def", "plugins::gidnumber::apply_gidnumber")]
+        for n in tfe:
+            root, names = chain(n["recv"])
+            bad = lossy(names)
+            ctx.check(root is not None and root == cand_local and not bad, "K2-hook-body", rec["fn"], "iterates-every-candidate",
+                      "the range check / generation runs over the whole candidate list",
+                      f"GidNumber::{hook} applies apply_gidnumber to a subset of the candidates only (adapters {names}, root "
+                      f"{'candidates' if root == cand_local else 'not the candidate list'}): an entry skipped by the filter keeps whatever gidnumber the "
+                      "request set, including reserved system ids", file=rec["file"], line=n.get("line"))
     ctx.exhaustive = True
